@@ -663,6 +663,8 @@ fn exec_inner(s: &mut CrdtSession, toks: &[&str], enc: TextEncoding) -> Vec<Stri
         c if c.starts_with("crdt.x.") => super::crdtx::exec(s, toks, enc),
         #[cfg(feature = "e_store")]
         c if c.starts_with("crdt.st.") => super::store::exec(s, toks, enc),
+        #[cfg(feature = "e_doccodec")]
+        c if c.starts_with("crdt.dc.") => super::doccodec::exec(s, toks, enc),
         _ => vec!["unknown-cmd".into()],
     }
 }
